@@ -3,6 +3,12 @@
 Engine N: the whole configuration space (delay/base/max x max_attempts) x every jitter script
 (randint rebound, all 3^k prefixes then a constant tail) is enumerated; each schedule is read
 item by item and compared with an exact rational reference of the documented curve.
+
+A second family puts max_delay close to base_delay (max/base from one ulp above 1 up to 2.35, with the
+boundaries 1.15 = upper jitter edge, 1/0.85 = lower jitter edge and 2*0.85 bracketed), where the plateau
+max_delay is reached at item 1 or 2 and *both* clamps are live on capped items; there every one of the 31
+draws of randint(85, 115) is enumerated, as a constant script and as a single deviating draw at each of the
+first k positions.
 """
 import itertools
 from fractions import Fraction
@@ -17,15 +23,55 @@ META = {
     'text': 'Every (delay/base/max, max_attempts) configuration from a boundary grid, crossed with every '
             'jitter script over {85,100,115} for the first k items and each constant tail, is expanded up '
             'to 2100 items and compared item by item with a rational-arithmetic reference band [85%,115%] of min(base*2^i,max) clamped to [base,max]; the real '
-            '_ReconnectionHandler is driven over every finite schedule to count attempts.',
-    'note': 'Jitter is drawn through cassandra.policies.randint, which the check rebinds; values other '
-            'than 85/100/115 are interior points of a monotone clamp and are not enumerated.',
+            '_ReconnectionHandler is driven over every finite schedule to count attempts.  A near-ratio family '
+            '(5 bases x 15 ratios max/base in (1, 2.35] bracketing 1.15, 1/0.85 and 1.7, so that the capped plateau starts '
+            'at item 1 or 2 and sits within one jitter band of base) is crossed with all 31 draws of randint(85,115): '
+            'each draw as a constant script (max_attempts None/3/64) and as a single deviating draw at each of the '
+            'first k positions over a tail of 100 (max_attempts 3/64); the grid configurations with a finite limit '
+            '<= 64 also get the 31 constant scripts.',
+    'note': 'Jitter is drawn through cassandra.policies.randint, which the check rebinds.  On the boundary grid '
+            'with long schedules only 85/100/115 are enumerated; all 31 draws are enumerated on the near-ratio '
+            'family and on the short grid schedules.',
     'design_ref': 'C24',
 }
 
 DELAYS = [0, 0.1, 1, 2, 600, 1e308]
 ATTEMPTS = [None, 0, 1, 2, 3, 64, 2000]
 JIT = (85, 100, 115)
+ALL_JIT = tuple(range(85, 116))
+# near-ratio family: max_delay within (and just around) one jitter band of base_delay
+RATIO_BASES = [0.1, 1, 4, 10, 100]
+RATIOS = [None, 1.01, 1.1, 1.125, 1.149, 1.15, 1.151, 1.17, 1.176, 100.0 / 85, 1.177, 1.2, 1.7, 2, 2.35]
+RATIO_ATTEMPTS = [None, 3, 64]
+
+
+def ratio_pairs():
+    import math
+    out = []
+    for a in RATIO_BASES:
+        for r in RATIOS:
+            b = math.nextafter(float(a), float('inf')) if r is None else a * r
+            if b > a and (a, b) not in out:
+                out.append((a, b))
+    return out
+
+
+def scripts_for(kind, fam, n, k):
+    if kind == 'const':
+        return [((), 100)]
+    const31 = [((), j) for j in ALL_JIT]
+    if fam == 'ratio':
+        out = list(const31)
+        if n is not None:
+            for pos in range(k):
+                for j in ALL_JIT:
+                    if j != 100:
+                        out.append(((100,) * pos + (j,), 100))
+        return out
+    out = [(p, t) for p in itertools.product(JIT, repeat=k) for t in JIT]
+    if n is not None and n <= 64:
+        out += [s for s in const31 if s[1] not in JIT]
+    return out
 
 
 class Script(object):
@@ -64,14 +110,17 @@ def run_chunk(args):
     part = Part()
     orig = pol.randint
     try:
-        for kind, a, b, n in configs:
-            scripts = [((), 100)] if kind == 'const' else \
-                [(p, t) for p in itertools.product(JIT, repeat=k) for t in JIT]
-            for prefix, tail in scripts:
+        for cfg in configs:
+            kind, a, b, n = cfg[:4]
+            fam = cfg[4] if len(cfg) > 4 else 'grid'
+            fa, fb_ = (Fraction(a), Fraction(b)) if kind == 'exp' else (None, None)
+            for prefix, tail in scripts_for(kind, fam, n, k):
                 sc = Script(prefix, tail)
                 pol.randint = sc
-                case = {'kind': kind, 'a': a, 'b': b, 'max_attempts': n, 'jitter_prefix': list(prefix), 'tail': tail}
+                case = {'kind': kind, 'a': a, 'b': b, 'max_attempts': n, 'jitter_prefix': list(prefix), 'tail': tail,
+                        'fam': fam}
                 part.count('evaluations')
+                part.count('schedules_%s_%s' % (kind, fam))
                 try:
                     p = pol.ConstantReconnectionPolicy(a, n) if kind == 'const' else \
                         pol.ExponentialReconnectionPolicy(a, b, n)
@@ -90,14 +139,22 @@ def run_chunk(args):
                 # items
                 bad = None
                 jittered = False
+                plateau = None
                 for i, x in enumerate(items):
                     if kind == 'const':
                         if x != a:
                             bad = ('value', i, x, a)
                             break
                     else:
-                        lo, e = ref_exp_item(a, b, i, 85)
-                        hi, _ = ref_exp_item(a, b, i, 115)
+                        if plateau is None:
+                            lo, e = ref_exp_item(a, b, i, 85)
+                            hi, _ = ref_exp_item(a, b, i, 115)
+                            mid = ref_exp_item(a, b, i, 100)[0]
+                            if e == fb_ or fa == 0:
+                                # min(base*2^i, max) no longer changes: the reference band is the same from here on
+                                plateau = (lo, hi, e, mid)
+                        else:
+                            lo, hi, e, mid = plateau
                         if not (a <= x <= b):
                             bad = ('bounds', i, x, (a, b))
                             break
@@ -106,8 +163,15 @@ def run_chunk(args):
                             bad = ('curve', i, x, [float(lo) if lo < 10 ** 400 else 'huge',
                                                    float(hi) if hi < 10 ** 400 else 'huge'])
                             break
-                        if sc.at(i) != 100 and lo != hi and not close(x, ref_exp_item(a, b, i, 100)[0]):
+                        if sc.at(i) != 100 and lo != hi and not close(x, mid):
                             jittered = True
+                        if i < 8 and e == fb_ and fb_ != fa:
+                            # a capped item on which the scripted draw reaches past one of the two clamps
+                            raw = e * sc.at(i) / 100
+                            if raw < fa:
+                                part.count('capped_items_needing_lower_clamp')
+                            elif raw > fb_:
+                                part.count('capped_items_needing_upper_clamp')
                 if bad:
                     part.violation('C24/%s/item/%s' % (kind, bad[0]),
                                    'item %d is %r, reference %r, for %r' % (bad[1], bad[2], bad[3], case),
@@ -164,19 +228,30 @@ def run(ctx):
                 continue
             for n in ATTEMPTS:
                 configs.append(('exp', a, b, n))
+    n_grid = len(configs)
+    pairs = ratio_pairs()
+    for a, b in pairs:
+        for n in RATIO_ATTEMPTS:
+            configs.append(('exp', a, b, n, 'ratio'))
     configs = ctx.rotate(configs)
     chunks = [(k, horizon, configs[i::ctx.nproc]) for i in range(ctx.nproc)]
     for part in ctx.pmap(run_chunk, [c for c in chunks if c[2]]):
         ctx.merge(part)
-    ctx.cov['rule'] = ('configs = %d (const: delay x max_attempts; exp: base<=max x max_attempts); per exp config '
-                       'every jitter script in {85,100,115}^%d x constant tail; %d items read per schedule; '
-                       'non-trivial = exp case in which some item actually moved off the un-jittered curve, or any const config' % (len(configs), k, horizon + 1))
+    ctx.cov['rule'] = ('configs = %d grid (const: delay x max_attempts; exp: base<=max x max_attempts) + %d near-ratio '
+                       '(%d (base,max) pairs with max/base in (1,2.35] x max_attempts in %r); per grid exp config '
+                       'every jitter script in {85,100,115}^%d x constant tail (+ the other 28 constant draws when '
+                       'max_attempts <= 64); per near-ratio config all 31 constant draws and, for finite limits, a single '
+                       'draw j != 100 in 85..115 at each of the first %d positions; up to %d items read per schedule; '
+                       'non-trivial = exp case in which some item actually moved off the un-jittered curve, or any const config' % (
+                           n_grid, len(configs) - n_grid, len(pairs), RATIO_ATTEMPTS, k, k, horizon + 1))
     ctx.cov['exhaustive'] = True
     ctx.assume('randint is the only randomness in the policies (rebound by the check)')
 
 
 def replay(ctx, data):
-    part = run_chunk((len(data['jitter_prefix']), 2100, [(data['kind'], data['a'], data['b'], data['max_attempts'])]))
+    # re-runs every script of the configuration's family (k = 3 covers the quick tier's positions)
+    k = max(3, len(data['jitter_prefix']))
+    part = run_chunk((k, 2100, [(data['kind'], data['a'], data['b'], data['max_attempts'], data.get('fam', 'grid'))]))
     for fp, what, _ in part.violations:
         print(fp, '::', what)
     return bool(part.violations)
